@@ -203,3 +203,176 @@ def refute_search(mod, proof, violations, ix, workdir, seed):
 
 
 refuters = {p.name: refute_search for p in proofs}
+
+
+# ---------------------------------------------------------------------------------------------
+# AsyncMetricStorage::Record<T> (sdk/include/opentelemetry/sdk/metrics/state/async_metric_storage.h): "a delta reader receives the difference
+# from what that same reader was last given": every reported attribute set is looked up in THE cumulative map (the one kept across
+# observations), the delta map gets (new - previous) when there is a previous value and the new value otherwise, the cumulative map gets the
+# new value; the two maps themselves stay in place (nothing else in them is dropped).
+TU_AMS = ("tu_async_storage", '#include "%s/sdk/include/opentelemetry/sdk/metrics/state/async_metric_storage.h"\n'
+          'template void opentelemetry::sdk::metrics::AsyncMetricStorage::Record<int64_t>(const std::unordered_map<opentelemetry::sdk::metrics::MetricAttributes, int64_t, opentelemetry::sdk::metrics::AttributeHashGenerator> &, opentelemetry::common::SystemTimestamp) noexcept;\n'
+          'template void opentelemetry::sdk::metrics::AsyncMetricStorage::Record<double>(const std::unordered_map<opentelemetry::sdk::metrics::MetricAttributes, double, opentelemetry::sdk::metrics::AttributeHashGenerator> &, opentelemetry::common::SystemTimestamp) noexcept;\n' % R.core.REPO)
+AMS_PRE = r"""
+size_t g_k;
+typedef struct xc_aggr { unsigned long id; } xc_aggr;          /* an Aggregation object: its identity */
+typedef struct xc_ahm { char xc_unused; } xc_ahm;              /* an AttributesHashMap: its identity is its address */
+/* ghost record of the boundary calls of the iteration g_k (the iteration under consideration) */
+unsigned long g_iter;                                           /* iterations started */
+unsigned long g_new_calls, g_agg_calls, g_get_calls, g_diff_calls, g_clone_calls, g_setc_calls, g_setd_calls, g_set_other;
+const void *g_get_map, *g_get_key; xc_aggr *g_get_ret;          /* Get of iteration g_k: on which map, for which key, what it returned */
+xc_aggr *g_new_ret, *g_diff_self, *g_diff_arg, *g_diff_ret, *g_clone_arg, *g_clone_ret;
+const void *g_setc_key, *g_setd_key; xc_aggr *g_setc_val, *g_setd_val;
+const void *g_cum, *g_delta;                                    /* the storage's two maps at entry */
+static void xc_havoc_ghosts(void) { size_t a; g_k = a; g_iter = 0; g_new_calls = g_agg_calls = g_get_calls = g_diff_calls = g_clone_calls = g_setc_calls = g_setd_calls = g_set_other = 0;
+  g_get_map = g_get_key = 0; g_get_ret = 0; g_new_ret = g_diff_self = g_diff_arg = g_diff_ret = g_clone_arg = g_clone_ret = 0; g_setc_key = g_setd_key = 0; g_setc_val = g_setd_val = 0; }
+#define THIS_ITER (g_iter == g_k + 1)
+"""
+AMS_POST = r"""
+/* DefaultAggregation::CreateAggregation / CloneAggregation, Aggregation::Aggregate / Diff, AttributesHashMap::Get / Set: boundary calls.
+   Fresh objects come from malloc; Get returns an arbitrary entry or NULL (the map's content is arbitrary). */
+/* (dfcc does not allow allocation inside a loop under a loop contract: the four kinds of object are four distinct static objects, which is all
+   the contract needs - it follows identities within one iteration and the code never looks inside) */
+static xc_aggr xc_o_new, xc_o_get, xc_o_diff, xc_o_clone;
+static xc_aggr *xc_CreateAggregation(void) { xc_aggr *p = &xc_o_new; g_new_calls++; if (THIS_ITER) g_new_ret = p; return p; }
+static void xc_Aggregate(xc_aggr *a) { g_agg_calls++; }
+static xc_aggr *xc_ahm_Get(const xc_ahm *m, const void *key) { xc_aggr *r; bool present; g_get_calls++; r = present ? &xc_o_get : NULL; if (THIS_ITER) { g_get_map = m; g_get_key = key; g_get_ret = r; } return r; }
+static xc_aggr *xc_Diff(xc_aggr *self, xc_aggr *next) { xc_aggr *p = &xc_o_diff; g_diff_calls++; if (THIS_ITER) { g_diff_self = self; g_diff_arg = next; g_diff_ret = p; } return p; }
+static xc_aggr *xc_Clone(xc_aggr *a) { xc_aggr *p = &xc_o_clone; g_clone_calls++; if (THIS_ITER) { g_clone_arg = a; g_clone_ret = p; } return p; }
+static void xc_ahm_Set(xc_ahm *m, const void *key, xc_aggr *v)
+{
+  if ((const void *)m == g_cum) { g_setc_calls++; if (THIS_ITER) { g_setc_key = key; g_setc_val = v; } }
+  else if ((const void *)m == g_delta) { g_setd_calls++; if (THIS_ITER) { g_setd_key = key; g_setd_val = v; } }
+  else g_set_other++;
+}
+"""
+
+
+def _ams_types(em, base, targs, name):
+    if base == "std::unique_ptr" and targs:
+        last = targs[0].strip().split("::")[-1]
+        if last == "Aggregation":
+            return common.CT("xc_aggr", 1)
+        if last.startswith("AttributesHashMap"):
+            return common.CT("xc_ahm", 1)
+    if base == "std::unordered_map" and targs and len(targs) >= 2:
+        vt = em._ctype(targs[1])
+        return common.CT("xc_meas_%s" % vt.base)
+    if base == "std::pair" and targs and len(targs) == 2 and "FilteredOrderedAttributeMap" in targs[0]:
+        vt = em._ctype(targs[1])
+        return common.CT("xc_pair_%s" % vt.base)
+    return None
+
+
+def _configure_ams(cfg):
+    common.sdk_trace_boundary(cfg)
+    common.chrono_boundary(cfg)
+    cfg.type_handlers.insert(0, _ams_types)
+    cfg.drop_types = getattr(cfg, "drop_types", set()) | {"std::lock_guard"}
+    for r in ("sdk::metrics::FilteredOrderedAttributeMap", "sdk::metrics::InstrumentDescriptor", "sdk::metrics::AggregationConfig", "sdk::metrics::TemporalMetricStorage",
+              "common::SpinLockMutex", "sdk::metrics::Aggregation"):
+        cfg.opaque_records[r] = "xc_opaque"
+    cfg.type_map["sdk::metrics::Aggregation"] = "xc_aggr"
+    for vt, ct in (("long", "long"), ("double", "double")):
+        for ns in ("opentelemetry::sdk::metrics::", "sdk::metrics::", "opentelemetry::v1::sdk::metrics::"):
+            cfg.type_map["std::__detail::_Node_const_iterator<std::pair<const %sFilteredOrderedAttributeMap, %s>, false, true>::value_type" % (ns, vt)] = "xc_pair_" + ct
+            cfg.type_map["std::pair<const %sFilteredOrderedAttributeMap, %s>" % (ns, vt)] = "xc_pair_" + ct
+    if not hasattr(cfg, "seq_handlers"):
+        cfg.seq_handlers = {}
+    for k in ("xc_meas_long", "xc_meas_double"):
+        cfg.seq_handlers[k] = lambda em, seq, targs: ("(%s).items" % seq, "(%s).count" % seq)
+    cfg.seq_handlers["std::unordered_map"] = lambda em, seq, targs: ("(%s).items" % seq, "(%s).count" % seq)
+    unp = lambda r: (r["node"] if isinstance(r, dict) and r.get("xc_is_ptr") else r)
+    cfg.ext_q["DefaultAggregation::CreateAggregation"] = lambda em, node, recv, args: "xc_CreateAggregation()"
+    cfg.ext_q["DefaultAggregation::CloneAggregation"] = lambda em, node, recv, args: "xc_Clone(%s)" % em.addr_of(args[2])
+    cfg.ext_q["Aggregation::Aggregate"] = lambda em, node, recv, args: "xc_Aggregate(%s)" % em.expr(unp(recv))
+    cfg.ext_q["Aggregation::Diff"] = lambda em, node, recv, args: "xc_Diff(%s, %s)" % (em.expr(unp(recv)), em.addr_of(args[0]))
+    for cls in ("AttributesHashMapWithCustomHash<sdk::metrics::FilteredOrderedAttributeMapHash>", "AttributesHashMapWithCustomHash", "AttributesHashMap"):
+        cfg.ext_q[cls + "::Get"] = lambda em, node, recv, args: "xc_ahm_Get(%s, (const void *)%s)" % (em.expr(unp(recv)), em.addr_of(args[0]))
+        cfg.ext_q[cls + "::Set"] = lambda em, node, recv, args: "xc_ahm_Set(%s, (const void *)%s, %s)" % (em.expr(unp(recv)), em.addr_of(args[0]), em.expr(args[1]))
+    U = "std::unique_ptr::"
+    cfg.ext_methods[U + "operator->"] = lambda em, recv, args, n: recv
+    cfg.ext_methods[U + "operator*"] = lambda em, recv, args, n: "(*%s)" % recv
+    cfg.ext_methods[U + "get"] = lambda em, recv, args, n: recv
+    cfg.ext_methods[U + "operator bool"] = lambda em, recv, args, n: "(%s != NULL)" % recv
+    cfg.ext_methods[U + "reset"] = lambda em, recv, args, n: "%s = %s" % (recv, em.expr(args[0]) if [a for a in args if a.get("kind") != "CXXDefaultArgExpr"] else "NULL")
+    cfg.ctor_ext["std::unique_ptr"] = lambda em, node, args: (em.expr(args[0]) if args else "NULL")
+    cfg.ext["new"] = lambda em, n: "((xc_ahm *)malloc(sizeof(xc_ahm)))"
+
+
+def _ams_defs(vt):
+    return ("typedef struct xc_opaque_fwd xc_opaque_fwd;\n"
+            "#define XC_MEAS_T %s\n" % vt)
+
+
+AMS_STRUCTS = r"""
+typedef struct xc_pair_long { xc_opaque first; long second; } xc_pair_long;
+typedef struct xc_meas_long { xc_pair_long *items; size_t count; } xc_meas_long;
+typedef struct xc_pair_double { xc_opaque first; double second; } xc_pair_double;
+typedef struct xc_meas_double { xc_pair_double *items; size_t count; } xc_meas_double;
+"""
+
+
+def record_contract(vt):
+    return {"pre":
+        "__CPROVER_requires(__CPROVER_is_fresh(self, sizeof(*self)) && __CPROVER_is_fresh(measurements, sizeof(*measurements)) && measurements->count <= 64 && __CPROVER_is_fresh(measurements->items, measurements->count * sizeof(xc_pair_%s)))\n" % vt +
+        "__CPROVER_requires(__CPROVER_is_fresh(self->cumulative_hash_map_, sizeof(xc_ahm)) && __CPROVER_is_fresh(self->delta_hash_map_, sizeof(xc_ahm)) && g_cum == self->cumulative_hash_map_ && g_delta == self->delta_hash_map_)\n"
+        # frame: the two maps stay where they are (Record does not replace or drop the cumulative baseline), only ghosts change
+        "__CPROVER_assigns(g_iter, g_new_calls, g_agg_calls, g_get_calls, g_diff_calls, g_clone_calls, g_setc_calls, g_setd_calls, g_set_other, g_get_map, g_get_key, g_get_ret, g_new_ret, g_diff_self, g_diff_arg, g_diff_ret, g_clone_arg, g_clone_ret, g_setc_key, g_setd_key, g_setc_val, g_setd_val)\n"
+        "__CPROVER_ensures(self->cumulative_hash_map_ == g_cum && self->delta_hash_map_ == g_delta && g_set_other == 0)\n"
+        # one lookup, one cumulative store and one delta store per reported attribute set
+        "__CPROVER_ensures(g_iter == measurements->count && g_get_calls == g_iter && g_setc_calls == g_iter && g_setd_calls == g_iter && g_new_calls == g_iter && g_agg_calls == g_iter)\n"
+        # the reported set number g_k: looked up in the cumulative map kept across observations, under its own key
+        "__CPROVER_ensures(g_k < measurements->count ==> (g_get_map == g_cum && g_get_key == &measurements->items[g_k].first && g_setc_key == g_get_key && g_setd_key == g_get_key))\n"
+        # previous value known: delta = previous.Diff(new), cumulative = new; unknown: delta = new, cumulative = a copy of new
+        "__CPROVER_ensures((g_k < measurements->count && g_get_ret != NULL) ==> (g_diff_self == g_get_ret && g_diff_arg == g_new_ret && g_setd_val == g_diff_ret && g_setc_val == g_new_ret))\n"
+        "__CPROVER_ensures((g_k < measurements->count && g_get_ret == NULL) ==> (g_setd_val == g_new_ret && g_clone_arg == g_new_ret && g_setc_val == g_clone_ret))\n",
+        "loops": {1:
+            "__CPROVER_assigns(xc_i1, g_iter, g_new_calls, g_agg_calls, g_get_calls, g_diff_calls, g_clone_calls, g_setc_calls, g_setd_calls, g_set_other, g_get_map, g_get_key, g_get_ret, g_new_ret, g_diff_self, g_diff_arg, g_diff_ret, g_clone_arg, g_clone_ret, g_setc_key, g_setd_key, g_setc_val, g_setd_val)\n"
+            "__CPROVER_loop_invariant(xc_i1 <= measurements->count && g_iter == xc_i1 && g_get_calls == xc_i1 && g_setc_calls == xc_i1 && g_setd_calls == xc_i1 && g_new_calls == xc_i1 && g_agg_calls == xc_i1 && g_set_other == 0)\n"
+            "__CPROVER_loop_invariant(self->cumulative_hash_map_ == g_cum && self->delta_hash_map_ == g_delta)\n"
+            "__CPROVER_loop_invariant(g_k < xc_i1 ==> (g_get_map == g_cum && g_get_key == &measurements->items[g_k].first && g_setc_key == g_get_key && g_setd_key == g_get_key))\n"
+            "__CPROVER_loop_invariant((g_k < xc_i1 && g_get_ret != NULL) ==> (g_diff_self == g_get_ret && g_diff_arg == g_new_ret && g_setd_val == g_diff_ret && g_setc_val == g_new_ret))\n"
+            "__CPROVER_loop_invariant((g_k < xc_i1 && g_get_ret == NULL) ==> (g_setd_val == g_new_ret && g_clone_arg == g_new_ret && g_setc_val == g_clone_ret))\n"
+            "__CPROVER_decreases(measurements->count - xc_i1)\n"},
+        "ghost": {(1, "body_start"): "g_iter++;"}}
+
+
+contracts_ams = {"AsyncMetricStorage_Record_long": record_contract("long"), "AsyncMetricStorage_Record_double": record_contract("double")}
+proofs_ams = [
+    Proof("AsyncStorage_Record_long", [("AsyncMetricStorage::Record<long>", 2)], enforce="AsyncMetricStorage_Record_long",
+          desc="observable counters: per reported attribute set one lookup in the persistent cumulative map, delta = previous.Diff(new) or new, cumulative = new; the maps stay in place"),
+    Proof("AsyncStorage_Record_double", [("AsyncMetricStorage::Record<double>", 2)], enforce="AsyncMetricStorage_Record_double", desc="same for double"),
+]
+for _p in proofs_ams:
+    _p.tu = TU_AMS
+    _p.pre_c = AMS_PRE + AMS_STRUCTS
+    _p.post_struct_c = AMS_POST
+    _p.spec_headers = ("xc_trace_boundary.h",)
+    _p.force_records = ()
+    _p.configure = _configure_ams
+    _p.own_config = True
+    _p.contracts = contracts_ams
+    _p.timeout = 600
+proofs += proofs_ams
+
+
+def refute_async(mod, proof, violations, ix, workdir, seed):
+    """directed native search on a real MeterProvider with an observable counter: every plan of up to 4 collections in which each of two attribute
+    sets is reported or skipped, cumulative and delta reader"""
+    import os, re as _re, subprocess
+    from . import c08 as _c08
+    srcs = _c08._repo_sources()
+    binpath = R.build_native("c17_async_native", [os.path.join(R.core.HERE, "replay", "c17_async_native.cc")] + [os.path.join(R.core.REPO, s) for s in srcs], ["-O1"])
+    full = subprocess.run([binpath, "search"], stdout=subprocess.PIPE, stderr=subprocess.STDOUT, text=True, timeout=600).stdout
+    m = _re.findall(r"^FOUND (.*)$", full, _re.M)
+    if not m:
+        return None
+    args = m[-1].split()
+    r = R.native_check("c17_async_native", ["c17_async_native.cc"], args, ["-O1"], repo_sources=srcs)
+    r["input"] = {"driver_args": args, "meaning": "plan <per collection: a = only set A reported, b = only B, x = both, - = none> <0 cumulative | 1 delta reader>", "found_by": "directed native search (refute mode)"}
+    return r if r["reproduced"] else None
+
+
+for _p in proofs_ams:
+    refuters[_p.name] = refute_async
